@@ -113,7 +113,9 @@ fn blackman(m: usize) -> Window {
     let mut b = Vec::with_capacity(m);
     for n in 0..m {
         let n = n as Float;
-        let m = m as Float;
+        // Symmetric form (denominator M-1, like hamming() above): filter
+        // design needs w[n] == w[M-1-n], or the taps lose linear phase.
+        let m = (m.max(2) - 1) as Float;
 
         // Parameters.
         //
@@ -151,7 +153,9 @@ fn blackman_harris(m: usize) -> Window {
     let mut b = Vec::with_capacity(m);
     for n in 0..m {
         let n = n as Float;
-        let m = m as Float;
+        // Symmetric form (denominator M-1, like hamming() above): filter
+        // design needs w[n] == w[M-1-n], or the taps lose linear phase.
+        let m = (m.max(2) - 1) as Float;
 
         // Formula.
         let t1 = 2.0 * PI * n / m;
